@@ -4,6 +4,7 @@ import MahfModel.Model.TemplatesSize
 import MahfModel.Model.TemplatesLoops
 import MahfModel.Model.TemplatesParam
 import MahfModel.Model.TemplatesInst
+import MahfModel.Model.TemplatesBudget
 open MahfModel MahfModel.Tpl Sexp
 
 def compositeNames : List String := ["Block", "Loop", "Branch", "Scope"]
@@ -146,8 +147,9 @@ def splitParams (ps : List Sexp) : List Nat × List Float :=
 inductive TermK where
   | iters (k : Nat) | evals (n : Nat) | both (k n : Nat) | either (k n : Nat)
 
-def TermK.ofSexp : Sexp → Option TermK
-  | .list [.atom "term", .atom kind, k, n] => do
+def TermK.ofSexpTagged (tag : String) : Sexp → Option TermK
+  | .list [.atom t, .atom kind, k, n] => do
+    if t != tag then none
     let k ← nat? k
     let n ← nat? n
     match kind with
@@ -157,6 +159,15 @@ def TermK.ofSexp : Sexp → Option TermK
     | "either" => some (.either k n)
     | _ => none
   | _ => none
+
+def TermK.ofSexp : Sexp → Option TermK := TermK.ofSexpTagged "term"
+
+/-- the condition in the language of `Model/TemplatesBudget.lean` -/
+def TermK.bcond : TermK → BCond
+  | .iters k => .iterLt k
+  | .evals n => .evalLt n
+  | .both k n => .and (.iterLt k) (.evalLt n)
+  | .either k n => .or (.iterLt k) (.evalLt n)
 
 def TermK.cond : TermK → LCond
   | .iters k => .iterLt k
@@ -177,12 +188,52 @@ def termOk (t : TermK) (passes : Nat) (ev : List Int) (evEnd : Int) : Bool :=
   | .both k n => starts.all (fun (i, e) => i < k && e < n) && (passes ≥ k || evEnd ≥ n)
   | .either k n => starts.all (fun (i, e) => i < k || e < n) && (passes ≥ k && evEnd ≥ n)
 
+/-- What one `Configuration::run` was observed to do. -/
+structure RunObs where
+  iters : Option Nat
+  height : Option Int
+  size : Option Int
+  pcount : List Nat
+  evals : List Int
+  evalsFinal : Int
+  nlruns : Nat
+  /-- completed loop executions (first 400): (loop passes around it, passes it made) -/
+  lruns : List (Nat × Nat)
+
+def RunObs.ofFields (out : List Sexp) : RunObs :=
+  { iters := (field? "iters" out).bind nat?
+    height := (field? "height" out).bind intOf?
+    size := (field? "size" out).bind intOf?
+    pcount := natsOf ((out.filterMap (tagged? "pcount")).headD [])
+    evals := intsOf ((out.filterMap (tagged? "evals")).headD [])
+    evalsFinal := ((field? "evals-final" out).bind intOf?).getD (-1)
+    nlruns := ((field? "nlruns" out).bind nat?).getD 0
+    lruns := ((out.filterMap (tagged? "lruns")).headD []).filterMap fun
+      | .list [d, p, _, _] => do pure ((← nat? d), (← nat? p))
+      | _ => none }
+
+/-- The loop executions of a run are the predicted ones: the same executions in the same order with the same pass
+counts (the harness reports the first 400 and the total), the same number of completed passes at every depth, the
+predicted final `Iterations`. -/
+def countsAsPredicted (pred : Lvl × List (Nat × Nat)) (r : RunObs) : Bool :=
+  let g := pred.2
+  r.lruns == g.take 400 && r.nlruns == g.length &&
+    (List.range (max r.pcount.length 3)).all (fun d => r.pcount.getD d 0 == passesIn d g) &&
+    r.iters == pred.1.iters
+
+def showPred : Option (Lvl × List (Nat × Nat)) → Sexp
+  | none => .atom "none"
+  | some (l, g) => .list [.list [.atom "iters", match l.iters with | some i => ofNat i | none => .atom "none"],
+      .list [.atom "evals", match l.evals with | some i => ofNat i | none => .atom "none"],
+      .list (.atom "loops" :: (g.take 12).map fun (d, p) => .list [ofNat d, ofNat p]),
+      .list [.atom "nloops", ofNat g.length]]
+
 def isIls (name : String) : Bool := name == "real_ils" || name == "permutation_ils"
 def isAco (name : String) : Bool := name == "ant_system" || name == "max_min_ant_system"
 
 def c16prun (args : List Sexp) (implOut : Sexp) : Option Verdict := do
-  let (name, ps, term) ← match args with
-    | [.atom name, ps, _, _, term] => do pure (name, (← tagged? "ps" ps), (← TermK.ofSexp term))
+  let (name, ps, term, rest) ← match args with
+    | .atom name :: ps :: _ :: _ :: term :: rest => do pure (name, (← tagged? "ps" ps), (← TermK.ofSexp term), rest)
     | _ => none
   let tid ← Tid.ofName name
   let (ns, fs) := splitParams ps
@@ -192,7 +243,9 @@ def c16prun (args : List Sexp) (implOut : Sexp) : Option Verdict := do
   let cool := if name == "real_fa" then (match fs with | [_, _, _, delta] => faCool delta | _ => true) else true
   let expected := tplT tid ns cool
   let presc := prescribedT tid ns
-  let inner : Option Nat := if isIls name then ns.getLast? else none
+  -- the condition of the scoped local search (ILS): given explicitly, or `iterations(last parameter)`
+  let innerT : Option TermK :=
+    if isIls name then (rest.findSome? (TermK.ofSexpTagged "inner")).orElse fun _ => ns.getLast?.map .iters else none
   let validDoc := docValidT tid ns fs
   let ctorModel := ctorOkT tid ns fs
   if res == "ctor-err" || res == "ctor-panic" || res == "timeout" || res == "bad-input" then
@@ -211,7 +264,7 @@ def c16prun (args : List Sexp) (implOut : Sexp) : Option Verdict := do
     | some e => skeleton scomp == skeleton e
     | none => false
   let condsOk := topConds lcomp == [term.cond] &&
-    scopedConds lcomp == (match inner with | some m => [.iterLt m] | none => [])
+    scopedConds lcomp == (innerT.map (·.cond)).toList
   let sw := match presc with
     | some (l, h) => sizeWithin scomp l h
     | none => false
@@ -220,14 +273,20 @@ def c16prun (args : List Sexp) (implOut : Sexp) : Option Verdict := do
   let passes := ((out.filterMap (tagged? "passes")).headD []).filterMap fun
     | .list [d, hb, ha, sz] => do pure ((← nat? d), (← intOf? hb), (← intOf? ha), (← intOf? sz))
     | _ => none
-  let pcount := natsOf ((out.filterMap (tagged? "pcount")).headD [])
+  let run1 := RunObs.ofFields out
+  let later := ((out.filterMap (tagged? "again")).headD []).filterMap fun x => (list? x).map RunObs.ofFields
+  let pcount := run1.pcount
   let p0 := pcount.headD 0
   let p1 := (pcount.drop 1).headD 0
   let itouch := ((field? "itouch" out).bind nat?).getD 1
-  let evals := intsOf ((out.filterMap (tagged? "evals")).headD [])
-  let evEnd := ((field? "evals-final" out).bind intOf?).getD (-1)
-  let height := (field? "height" out).bind intOf?
-  let itersObs := (field? "iters" out).bind nat?
+  let evals := run1.evals
+  let height := (run1 :: later).getLast?.bind (·.height)
+  -- the pass counts the PARAMETERS prescribe (`Model/TemplatesBudget.lean`): the tree `tplT` describes, its loops given
+  -- the conditions of the input, evaluation amounts from the size analysis — for a run on a fresh state and (the same,
+  -- `rerun_counts_as_first_run`) for every later run on the same state
+  let conds := term.bcond :: (innerT.map (·.bcond)).toList
+  let predP := (expected.bind fun e => toBTop e conds).bind fun b => predictRun 20000 b Lvl.empty
+  let predT := (toBTop scomp (bcondsOf 64 tree)).bind fun b => predictRun 20000 b Lvl.empty
   let zeroDist := ((field? "inst-zero-dist" out).bind bool?).getD false
   let failedIn := ((field? "failed-in" out).bind atom?).getD "-"
   -- what the model predicts for the two recorded defects
@@ -242,14 +301,28 @@ def c16prun (args : List Sexp) (implOut : Sexp) : Option Verdict := do
     d == 0 && (match presc with
       | some (l, h) => sz < l || (match h with | some h => sz > h | none => false)
       | none => true)
-  let countOk := termOk term p0 evals evEnd && itersObs == some p0 &&
-    (match inner with | some m => p1 == p0 * m | none => p1 == 0)
+  let obsOk (r : RunObs) : Bool :=
+    let q0 := r.pcount.headD 0
+    let q1 := (r.pcount.drop 1).headD 0
+    termOk term q0 r.evals r.evalsFinal && r.iters == some q0 &&
+      (match innerT with | some (.iters m) => q1 == q0 * m | some _ => true | none => q1 == 0) &&
+      (match predP with | some pr => countsAsPredicted pr r | none => true)
+  let countOk := obsOk run1
+  -- (under a condition that reads the evaluation counter every run starts its outermost loop with the evaluations of
+  -- its own initialisation phase — also where the evaluation amounts per pass are not determined by the parameters and
+  -- `predict` does not answer)
+  let readsEvals := match term with | .iters _ => false | _ => true
+  let rerunOk := later.all fun r => obsOk r && (!readsEvals || r.evals.head? == run1.evals.head?)
+  -- (population sizes at the pass boundaries of every run are in `passes`)
+  let rerunShape := later.all fun r => r.height == some 1
   let cls :=
     if res != "ok" then
       if res == "err" && !prog then s!"err@{failedIn}:no-iteration-bound"
       else if res == "panic" && isAco name && zeroDist then s!"panic@{failedIn}:zero-distance"
       else s!"{res}@{failedIn}"
     else if !countOk then "iters"
+    else if !rerunOk then "iters-rerun"
+    else if !rerunShape then "rerun-shape"
     else match passLeak with
       | some (_, hb, ha, _) => s!"leak{if ha - hb ≥ 0 then "+" else ""}{ha - hb}"
       | none =>
@@ -263,17 +336,23 @@ def c16prun (args : List Sexp) (implOut : Sexp) : Option Verdict := do
   let badSize := steps.find? fun st => !sizeStepOk leaves st
   let predictedFail := noProgress || acoPanic
   -- pass counts predicted by the loop interpreter (iteration-bounded runs: independent of the oracle)
-  let predictedCounts := match term with
-    | .iters _ =>
+  let innerIterBound := match innerT with | none | some (.iters _) => true | _ => false
+  let predictedCounts := match term, innerIterBound with
+    | .iters _, true =>
       if predictedFail then true else
       match lexec ⟨fun _ => true, fun _ => false⟩ 100000 0 lcomp (LSt.init lcomp) with
       | some s => res != "ok" || (passesAt 0 s == p0 && passesAt 1 s == p1 && s.exact)
       | none => false
-    | _ => true
+    | _, _ => true
   let staticOk := skelOk && condsOk && bal && ite && !hasOpaque comp &&
     (sw || tid == .real_iwo || tid == .real_cro || presc.isNone) &&
     toLean scomp.erase == toLean comp
-  let dynamicOk := bad.isNone && badSize.isNone && itouch == 0 && (predictedFail == (res != "ok")) && predictedCounts &&
+  -- the tree the constructor built predicts what the parameters predict, and the evaluation counter ends where predicted
+  let budgetOk := (expected.isNone || predT == predP) &&
+    (res != "ok" || (run1 :: later).all fun r => match predP with
+      | some (l, _) => l.evals.map Int.ofNat == some r.evalsFinal
+      | none => true)
+  let dynamicOk := bad.isNone && badSize.isNone && itouch == 0 && (predictedFail == (res != "ok")) && predictedCounts && budgetOk &&
     (!sw || res != "ok" || sizeBad.isNone) && (!bal || res != "ok" || (passLeak.isNone && height == some 1))
   let model := Sexp.list [
     .list [.atom "skeleton", ofBool skelOk], .list [.atom "conds", ofBool condsOk],
@@ -281,7 +360,8 @@ def c16prun (args : List Sexp) (implOut : Sexp) : Option Verdict := do
     .list [.atom "size-within", ofBool sw],
     .list [.atom "prescribed", match presc with | some (l, h) => .list [ofNat l, match h with | some h => ofNat h | none => .atom "inf"] | none => .atom "-"],
     .list [.atom "predicted-fail", ofBool predictedFail],
-    .list [.atom "doc-valid", match validDoc with | some b => ofBool b | none => .atom "-"]]
+    .list [.atom "doc-valid", match validDoc with | some b => ofBool b | none => .atom "-"],
+    .list [.atom "predicted", showPred predP], .list [.atom "tree-predicts-same", ofBool budgetOk]]
   let model := match bad with
     | some b => Sexp.list [model, .list [.atom "bad-step", .atom b.name, ofInt b.delta]]
     | none => model
